@@ -23,6 +23,17 @@ def coq_str(hexs):
 def coq_nat(n):
     return '%d%%nat' % int(n)
 
+def coq_fault_plan(arg):
+    """faulty:<plan>: "-" | <i>:err:<IO|NOENT|PNOTEXIST> | <i>:short:<k>, joined by '+' (Model/Faulty.v)"""
+    if arg in ('', '-'):
+        return '[]'
+    errs = {'IO': '(E KEIO)', 'NOENT': '(E KENOENT)', 'PNOTEXIST': '(EW KNotExist)'}
+    out = []
+    for part in arg.split('+'):
+        i, kind, a = part.split(':')
+        out.append('(%s, %s)' % (coq_nat(i), 'FltFail %s' % errs[a] if kind == 'err' else 'FltShort %s' % coq_nat(a)))
+    return '[' + '; '.join(out) + ']'
+
 def coq_stack(desc):
     """mem | ro(S) | bp:<hex>(S) | re:<n>(S) | cow(S,S) | cache:<dur>(S,S)"""
     pos = [0]
@@ -54,6 +65,8 @@ def coq_stack(desc):
             return '(SCow %s %s)' % (kids[0], kids[1])
         if kind == 'cache':
             return '(SCache %s %s %s)' % (coq_z(arg), kids[0], kids[1])
+        if kind == 'faulty':
+            return '(SFaulty %s %s)' % (coq_fault_plan(arg), kids[0])
         raise ValueError(i)
     return expr()
 
